@@ -174,7 +174,7 @@ func (r *Router[T]) URL(strict bool, pattern string, params map[string]string) (
 
 	switch {
 	case len(pattern) == 0: // 无需要处理
-	case len(params) == 0:
+	case len(params) == 0 && !strict: // strict 模式下即使没有参数，也需要验证路由项是否存在。
 		buf.WString(pattern)
 	case strict:
 		if err := r.tree.URL(&buf, pattern, params); err != nil {
